@@ -167,5 +167,18 @@ Example C02_nonvacuous :
   Good s /\ get_ann (fst (step s (RmRes (ById 0)))) 2 = None /\ get_ann (fst (step s (RmRes (ById 0)))) 3 <> None
   /\ get_ann (fst (step s (RmSet (ById 0)))) 3 = None /\ get_ann (fst (step s (RmSet (ById 0)))) 0 = None.
 Proof.
-  cbv zeta. split; [apply reachable_Good|]. repeat split; try reflexivity. discriminate.
+  cbv zeta. split; [apply reachable_Good|]. repeat split; try (vm_compute; reflexivity). vm_compute. discriminate.
 Qed.
+
+(* a key that was only declared (AnnotationDataSet::insert(DataKey::new(..)): no data, possibly beyond
+   the key -> data index) is an item like any other: histories contain the declaration (AddKey), so
+   the exactness, success and frame theorems above cover its removal; concretely: *)
+Example C02_declared_key_is_removed :
+  let ops := [AddSet 0; InsData (mkdb (ById 0) None (Some (ById 1)) VNull); AddKey (ById 0) 3] in
+  snd (step (run ops) (RmKey (ById 0) (ById 3) true)) = OOk 1
+  /\ (match get_set (fst (step (run ops) (RmKey (ById 0) (ById 3) true))) 0 with
+      | Some ds => ref_key ds (ById 3) = None /\ ref_key ds (ById 1) = Some 0
+      | None => False
+      end)
+  /\ (match get_set (run ops) 0 with Some ds => ref_key ds (ById 3) = Some 1 | None => False end).
+Proof. vm_compute. repeat split. Qed.
